@@ -38,9 +38,34 @@ package syslogparser
 //@   ensures  dropN(parser) == old(dropN(parser)) + 1 && dropB(parser) == old(dropB(parser)) + old(record.RawLength)
 //@   ensures  record._refCount == old(record._refCount) - 1
 
+// ---- what a well-formed line is (from the statement; positions are relative to the start of the line) ---------------
+// sp(r, k): ghost witness — position of the k-th space (k = 0..6) of the line r. wf(r) says the witness is right:
+// the line has at least 32 bytes, starts with "<", its first token is "<" 1-3 digits ">1" with PRI <= 191, and
+// sp(r,0) < ... < sp(r,6) are exactly the first seven spaces.
+//@ pure func sp(r string, k int) int
+//@ pure func A(r string, k int) int := off(r) + sp(r, k)
+//@ pure func nospace(r string, lo int, hi int) bool := forall p int :: lo <= p && p < hi ==> at(r, p) != ' '
+//@ pure func pri(r string) int :=
+//@     sp(r, 0) == 4 ? (r[1] - 48) : sp(r, 0) == 5 ? (r[1] - 48) * 10 + (r[2] - 48) : (r[1] - 48) * 100 + (r[2] - 48) * 10 + (r[3] - 48)
+//@ pure func wf(r string) bool :=
+//@     len(r) >= 32 && r[0] == '<' && 4 <= sp(r, 0) && sp(r, 0) <= 6
+//@  && r[sp(r, 0) - 2] == '>' && r[sp(r, 0) - 1] == '1'
+//@  && isdig(r[1]) && (sp(r, 0) >= 5 ==> isdig(r[2])) && (sp(r, 0) >= 6 ==> isdig(r[3])) && pri(r) <= 191
+//@  && sp(r, 0) < sp(r, 1) && sp(r, 1) < sp(r, 2) && sp(r, 2) < sp(r, 3) && sp(r, 3) < sp(r, 4) && sp(r, 4) < sp(r, 5) && sp(r, 5) < sp(r, 6) && sp(r, 6) < len(r)
+//@  && at(r, A(r, 0)) == ' ' && at(r, A(r, 1)) == ' ' && at(r, A(r, 2)) == ' ' && at(r, A(r, 3)) == ' ' && at(r, A(r, 4)) == ' ' && at(r, A(r, 5)) == ' ' && at(r, A(r, 6)) == ' '
+//@  && nospace(r, off(r), A(r, 0)) && nospace(r, A(r, 0) + 1, A(r, 1)) && nospace(r, A(r, 1) + 1, A(r, 2)) && nospace(r, A(r, 2) + 1, A(r, 3))
+//@  && nospace(r, A(r, 3) + 1, A(r, 4)) && nospace(r, A(r, 4) + 1, A(r, 5)) && nospace(r, A(r, 5) + 1, A(r, 6))
+// tok(r, j): the j-th header token after the PRI (j = 0..5: time host app pid source extradata); msg(r): the rest
+//@ pure func tok(r string, j int) string := r[sp(r, j) + 1 : sp(r, j + 1)]
+//@ pure func msg(r string) string := r[sp(r, 6) + 1 :]
+//@ pure func isparserfield(p *syslogParser, i int) bool :=
+//@     i == p.fieldFacilityLocator || i == p.fieldLevelLocator || i == p.fieldLogLocator
+//@  || i == p.restFieldLocators[0] || i == p.restFieldLocators[1] || i == p.restFieldLocators[2]
+//@  || i == p.restFieldLocators[3] || i == p.restFieldLocators[4] || i == p.restFieldLocators[5]
+
 //@ func (parser *syslogParser) Parse(input []byte, timestamp time.Time) *base.LogRecord
 //@   requires validparser(parser) && countersmall(parser) && len(input) < 2147483648
-//@   modifies base.LogRecord.Fields, base.LogRecord.RawLength, base.LogRecord.Timestamp, base.LogRecord.Unescaped, base.LogRecord._backbuf, base.LogRecord._refCount, mem(byte), mem(string)
+//@   modifies base.LogRecord.Fields, base.LogRecord.RawLength, base.LogRecord.Timestamp, base.LogRecord.Unescaped, base.LogRecord._backbuf, base.LogRecord._refCount, base.LogRecord.raw, base.lastraw, mem(byte), mem(string)
 //@   modifies parser.inputCounter.passedRecordsCountTotal, parser.inputCounter.passedRecordsLengthTotal
 //@   modifies parser.inputCounter.droppedRecordsCountTotal, parser.inputCounter.droppedRecordsLengthTotal
 //@   ensures[counted-exactly-once]
@@ -49,3 +74,37 @@ package syslogparser
 //@     || (result == nil && dropN(parser) == old(dropN(parser)) + 1 && dropB(parser) == old(dropB(parser)) + len(input)
 //@                       && passN(parser) == old(passN(parser)) && passB(parser) == old(passB(parser)))
 //@   ensures  result != nil ==> result.RawLength == len(input) && result.Timestamp == timestamp && len(result.Fields) == parser.allocator.nfields
+//@   ensures[raw-is-the-line] base.lastraw == old(string(input)) && (result != nil ==> result.raw === base.lastraw)
+//@   ensures[wellformed-accepted] wf(base.lastraw) ==> result != nil
+//@   ensures[facility-level] result != nil && wf(result.raw) ==>
+//@        result.Fields[parser.fieldFacilityLocator] === syslogprotocol.FacilityNames[pri(result.raw) / 8]
+//@     && result.Fields[parser.fieldLevelLocator] === parser.levelMapping[pri(result.raw) % 8]
+//@   ensures[header-tokens] result != nil && wf(result.raw) ==>
+//@        result.Fields[parser.restFieldLocators[0]] === tok(result.raw, 0) && result.Fields[parser.restFieldLocators[1]] === tok(result.raw, 1)
+//@     && result.Fields[parser.restFieldLocators[2]] === tok(result.raw, 2) && result.Fields[parser.restFieldLocators[3]] === tok(result.raw, 3)
+//@     && result.Fields[parser.restFieldLocators[4]] === tok(result.raw, 4) && result.Fields[parser.restFieldLocators[5]] === tok(result.raw, 5)
+//@   ensures[message] result != nil && wf(result.raw) && len(msg(result.raw)) <= defs.InputLogMaxMessageBytes && len(input) < defs.InputLogMaxRecordBytes ==>
+//@        result.Fields[parser.fieldLogLocator] === msg(result.raw)
+//@   ensures[overlong-counted-and-cut] wf(base.lastraw) && len(msg(base.lastraw)) > defs.InputLogMaxMessageBytes ==>
+//@        result != nil && ncalls(parser.overflowCounter) == old(ncalls(parser.overflowCounter)) + 1 && len(result.Fields[parser.fieldLogLocator]) <= defs.InputLogMaxMessageBytes
+//@   ensures[overlong-cut-at-utf8-boundary] wf(base.lastraw) && len(msg(base.lastraw)) > defs.InputLogMaxMessageBytes ==>
+//@        ncalls("util.CleanUTF8") == old(ncalls("util.CleanUTF8")) + 1
+//@   ensures[not-overlong-not-counted] wf(base.lastraw) && len(msg(base.lastraw)) <= defs.InputLogMaxMessageBytes ==>
+//@        ncalls(parser.overflowCounter) == old(ncalls(parser.overflowCounter))
+//@   ensures[unescaped-flag] result != nil ==> (result.Unescaped <==> exists i int :: 0 <= i && i < len(result.Fields[parser.fieldLogLocator]) && result.Fields[parser.fieldLogLocator][i] == 10)
+//@   canary ensures result != nil && wf(result.raw) ==> result.Fields[parser.restFieldLocators[0]] === tok(result.raw, 1)
+//@   canary ensures wf(base.lastraw) ==> result == nil
+//@   canary ensures result != nil && wf(result.raw) ==> result.Fields[parser.fieldLevelLocator] === parser.levelMapping[pri(result.raw) % 4]
+//@   ensures[other-fields-empty] result != nil ==> forall i int :: 0 <= i && i < len(result.Fields) && !isparserfield(parser, i) ==> len(result.Fields[i]) == 0
+//@   loop 1: invariant -1 <= rangeindex && rangeindex < 6 && record != nil && fields === record.Fields && len(fields) == parser.allocator.nfields
+//@   loop 1: invariant record._refCount >= 1 && record.RawLength == len(input) && record.Timestamp == timestamp
+//@   loop 1: invariant record._backbuf != nil ==> exists k int :: 0 <= k && k < 32 && len(*record._backbuf) == util.pow2(k)
+//@   loop 1: invariant wf(record.raw) ==> remaining === record.raw[sp(record.raw, rangeindex + 1) + 1 :]
+//@   loop 1: invariant wf(record.raw) ==> forall j int :: 0 <= j && j <= rangeindex ==> fields[parser.restFieldLocators[j]] === tok(record.raw, j)
+//@   loop 1: invariant wf(record.raw) ==> fields[parser.fieldFacilityLocator] === syslogprotocol.FacilityNames[pri(record.raw) / 8]
+//@                                     && fields[parser.fieldLevelLocator] === parser.levelMapping[pri(record.raw) % 8]
+//@   loop 1: invariant forall i int :: 0 <= i && i < len(fields) && i != parser.fieldFacilityLocator && i != parser.fieldLevelLocator
+//@                                     && (forall j int :: 0 <= j && j <= rangeindex ==> i != parser.restFieldLocators[j]) ==> len(fields[i]) == 0
+//@   loop 1: invariant[raw-is-line] record.raw == old(string(input)) && base.lastraw === record.raw
+//@   loop 1: invariant[remaining-in-raw] arr(remaining) === arr(record.raw) && off(record.raw) <= off(remaining)
+//@                     && off(remaining) + len(remaining) == off(record.raw) + len(record.raw)
